@@ -9,7 +9,7 @@
 // as one JSON file.  All reasoning happens in the Python rule engine.
 //
 // usage: stirfacts --out F.json [--fn RE]... [--rec RE]... [--enum RE]... [--calls] [--root /repo/src]
-//                  -- <clang args incl. source file>
+//                  [--map /repo/src/x.cxx=/scratch/x.cxx]... -- <clang args incl. source file>
 
 #include "clang/AST/ASTConsumer.h"
 #include "clang/AST/ASTContext.h"
@@ -26,6 +26,7 @@
 #include "clang/Tooling/Tooling.h"
 #include "clang/Tooling/CompilationDatabase.h"
 #include "llvm/Support/JSON.h"
+#include "llvm/Support/MemoryBuffer.h"
 #include "llvm/Support/Regex.h"
 #include "llvm/Support/raw_ostream.h"
 #include <map>
@@ -44,6 +45,7 @@ struct Options
   bool calls = false;
   std::string root = "/repo/src";
   std::string out;
+  std::vector<std::pair<std::string, std::string>> maps; // virtual path -> file providing the content
 };
 Options G;
 
@@ -1221,6 +1223,17 @@ main(int argc, const char** argv)
         G.root = argv[++i];
       else if (a == "--out" && i + 1 < argc)
         G.out = argv[++i];
+      else if (a == "--map" && i + 1 < argc)
+        {
+          std::string m = argv[++i];
+          auto p = m.find('=');
+          if (p == std::string::npos)
+            {
+              llvm::errs() << "--map needs virtual=real\n";
+              return 2;
+            }
+          G.maps.emplace_back(m.substr(0, p), m.substr(p + 1));
+        }
       else
         {
           llvm::errs() << "unknown option " << a << "\n";
@@ -1239,6 +1252,18 @@ main(int argc, const char** argv)
   clangArgs.pop_back();
   clang::tooling::FixedCompilationDatabase CDB(".", clangArgs);
   clang::tooling::ClangTool Tool(CDB, { source });
+  std::vector<std::unique_ptr<llvm::MemoryBuffer>> keep;
+  for (auto& m : G.maps)
+    {
+      auto buf = llvm::MemoryBuffer::getFile(m.second);
+      if (!buf)
+        {
+          llvm::errs() << "cannot read " << m.second << "\n";
+          return 2;
+        }
+      keep.push_back(std::move(*buf));
+      Tool.mapVirtualFile(m.first, keep.back()->getBuffer());
+    }
   int r = Tool.run(clang::tooling::newFrontendActionFactory<Action>().get());
   return r;
 }
